@@ -761,6 +761,9 @@ fn oracle_c13(s: &Session, rep: &mut Report) {
     if events != io.read_events {
         rep.t3("C13", &format!("transport answered {:?} but the stream surfaced {:?}", io.read_events, events));
     }
+    if s.wake.0.load(Ordering::SeqCst) != io.wakes_requested {
+        rep.t3("C13", &format!("the transport registered {} wake-ups with the context it was given, the task's waker saw {}", io.wakes_requested, s.wake.0.load(Ordering::SeqCst)));
+    }
     if io.zero_room_reads > 0 {
         rep.t3("C13", "poll_read was called with a buffer that has no room (spurious EOF)");
     }
@@ -1164,6 +1167,9 @@ fn oracle_c14(s: &mut Session, rep: &mut Report, what: &str) {
     }
     if let Some(n) = io.shutdown_early {
         rep.t3("C14", &format!("after {what}: poll_shutdown was called while {n} accepted bytes had not been written to the transport"));
+    }
+    if s.wake.0.load(Ordering::SeqCst) != io.wakes_requested {
+        rep.t3("C14", &format!("the transport registered {} wake-ups with the context it was given, the task's waker saw {}", io.wakes_requested, s.wake.0.load(Ordering::SeqCst)));
     }
     if io.empty_writes > 0 {
         rep.t3("C14", "poll_write was called with an empty buffer");
